@@ -276,9 +276,9 @@ def stationary_vcs():
     dec = REAL6 + [('c2', 'Real'), ('c3', 'Real')]
     x = f'(- {r} u_t)'
     about = 'lsearch_step_t::cubic returns the minimiser of the cubic interpolant (double treated as real)'
-    out.append(mkvc('interp/cubic/the returned point is a stationary point of EVERY cubic q with q(u)=fu, q\'(u)=gu, q(v)=fv, q\'(v)=gv (where the code\'s divisions and sqrt are defined)',
+    out.append(mkvc('interp/cubic/stationary: the returned point is a stationary point of EVERY cubic q with q(u)=fu, q\'(u)=gu, q(v)=fv, q\'(v)=gv (where the code\'s divisions and sqrt are defined)',
                     dec, cub + [k['defined']], f'(= (+ u_g (* 2.0 c2 {x}) (* 3.0 c3 {x} {x})) 0.0)', about, src))
-    out.append(mkvc('interp/cubic/the second derivative of the interpolant at the returned point is >= 0 (the minimiser, not the maximiser)',
+    out.append(mkvc('interp/cubic/minimiser: the second derivative of the interpolant at the returned point is >= 0 (the minimiser, not the maximiser)',
                     dec, cub + [k['defined']], f'(>= (+ (* 2.0 c2) (* 6.0 c3 {x})) 0.0)', about, src))
     out.append(mkvc('interp/cubic/reachability canary: the hypotheses are satisfiable', dec, cub + [k['defined']], None, 'vacuity guard (must be sat)', src, expect='sat'))
     # ---- quadratic
@@ -287,11 +287,11 @@ def stationary_vcs():
     dec = REAL6 + [('a2', 'Real')] + [(p + '_given', 'Bool') for p in k['pointers']] + [(p + '_pointee_in', 'Bool') for p in k['pointers']]
     quad = [f'(= v_f (+ u_f (* u_g {h}) (* a2 {h} {h})))']
     about = 'lsearch_step_t::quadratic returns the stationary point of the quadratic interpolant (double treated as real)'
-    out.append(mkvc('interp/quadratic/the returned point is the stationary point of EVERY quadratic q with q(u)=fu, q\'(u)=gu, q(v)=fv (where the code\'s divisions are defined)',
+    out.append(mkvc('interp/quadratic/stationary: the returned point is the stationary point of EVERY quadratic q with q(u)=fu, q\'(u)=gu, q(v)=fv (where the code\'s divisions are defined)',
                     dec, quad + [k['defined']], f'(= (+ u_g (* 2.0 a2 (- {r} u_t))) 0.0)', about, src))
     if k['conv'] is None:
         raise Unsupported('interp/quadratic: the convexity flag is no longer written')
-    out.append(mkvc('interp/quadratic/*convexity is true exactly when the leading coefficient of the interpolant is > 0',
+    out.append(mkvc('interp/quadratic/convexity_flag: *convexity is true exactly when the leading coefficient of the interpolant is > 0',
                     dec, quad + ['(not (= u_t v_t))'] + [p + '_given' for p in k['pointers']], f'(= {k["conv"]} (> a2 0.0))', about, src))
     out.append(mkvc('interp/quadratic/reachability canary: the hypotheses are satisfiable', dec, quad + [k['defined']] + [p + '_given' for p in k['pointers']], None,
                     'vacuity guard (must be sat)', src, expect='sat'))
@@ -301,14 +301,14 @@ def stationary_vcs():
     dec = REAL6 + [('m1', 'Real'), ('m0', 'Real')]
     lin = ['(= u_g (+ (* m1 u_t) m0))', '(= v_g (+ (* m1 v_t) m0))']
     about = 'lsearch_step_t::secant returns the zero of the affine interpolant of the slopes (double treated as real)'
-    out.append(mkvc('interp/secant/the returned point is the zero of EVERY affine L with L(u)=gu, L(v)=gv, i.e. the stationary point of the quadratic with q\'(u)=gu, q\'(v)=gv',
+    out.append(mkvc('interp/secant/stationary: the returned point is the zero of EVERY affine L with L(u)=gu, L(v)=gv, i.e. the stationary point of the quadratic with q\'(u)=gu, q\'(v)=gv',
                     dec, lin + [k['defined']], f'(= (+ (* m1 {r}) m0) 0.0)', about, src))
     out.append(mkvc('interp/secant/reachability canary: the hypotheses are satisfiable', dec, lin + [k['defined']], None, 'vacuity guard (must be sat)', src, expect='sat'))
     # ---- bisection
     k = kernel('bisection')
     r, src = k['ret'], k['src']
     about = 'lsearch_step_t::bisection returns the midpoint (double treated as real)'
-    out.append(mkvc('interp/bisection/the returned point is (u.t + v.t)/2, it lies between the two steps and no division can fail',
+    out.append(mkvc('interp/bisection/midpoint: the returned point is (u.t + v.t)/2, it lies between the two steps and no division can fail',
                     REAL6, [], f'(and {k["defined"]} (= (* 2.0 {r}) (+ u_t v_t)) (<= (rmin u_t v_t) {r}) (<= {r} (rmax u_t v_t)))', about, src))
     return out
 
@@ -337,11 +337,11 @@ def quadratic_vcs():
         src = kernel(cxx)['src']
         r, d = apply(cxx, sample('tu'), sample('tv'))
         about = f'lsearch_step_t::{cxx} on two samples of phi(t) = a t^2 + b t + c, a > 0 (double treated as real)'
-        out.append(mkvc(f'convexq/{cxx}/every division of the code has a non-zero divisor' + (' and the sqrt argument is >= 0' if cxx == 'cubic' else '') +
+        out.append(mkvc(f'convexq/{cxx}/defined: every division of the code has a non-zero divisor' + (' and the sqrt argument is >= 0' if cxx == 'cubic' else '') +
                         ' on two distinct samples of a convex quadratic', QDEC, QHYP, d, about, src))
-        out.append(mkvc(f'convexq/{cxx}/the interpolated step is the exact minimiser -b/(2a)', QDEC, QHYP, f'(= {r} {tstar})', about, src))
+        out.append(mkvc(f'convexq/{cxx}/exact: the interpolated step is the exact minimiser -b/(2a)', QDEC, QHYP, f'(= {r} {tstar})', about, src))
         wolfe = f'(and (> {r} 0.0) (<= {phi(r)} (+ {phi("0.0")} (* c1 {r} {dphi("0.0")}))) (<= (rabs {dphi(r)}) (* c2 (rabs {dphi("0.0")}))))'
-        out.append(mkvc(f'convexq/{cxx}/descent (b < 0), 0 < c1 <= 1/2, c2 >= 0: the interpolated step is > 0 and satisfies Armijo and strong Wolfe',
+        out.append(mkvc(f'convexq/{cxx}/armijo_strong_wolfe: descent (b < 0), 0 < c1 <= 1/2, c2 >= 0: the interpolated step is > 0 and satisfies Armijo and strong Wolfe',
                         QDEC, QHYP + ['(< qb 0.0)', '(< 0.0 c1)', '(<= c1 0.5)', '(>= c2 0.0)'], wolfe, about, src))
     # Armijo at the exact minimiser needs c1 <= 1/2: the registered domain 0 < c1 < c2 < 1 is wider (witness expected)
     r, d = apply('quadratic', sample('tu'), sample('tv'))
